@@ -260,3 +260,7 @@ func genStreamExhaustive(r *RNG, n int, emit func(string)) {
 		}
 	}
 }
+
+func bytesReader(b []byte) io.Reader {
+	return &fragReader{frags: [][]byte{append([]byte(nil), b...)}, fin: io.EOF}
+}
